@@ -1,10 +1,18 @@
-"""C11 - bounded run-time contract checks (see DESIGN.md)"""
-from props.common import bj
+"""C11 - Property.clone under a heap contract; everything else bounded run-time contract checks (see DESIGN.md)"""
+from props.common import bj, HEAP_ASSUMPTIONS
 
-LEVEL = 'exploration'
-CONTRACT_MODULES = []
-DEDUCTIVE = []
-EXPLANATION = 'bounded stand-in: clone/export_leaf/values contracts (equal, detached, nothing shared, ids fresh or kept, edits do not propagate) checked at run time'
+LEVEL = 'other'
+CONTRACT_MODULES = ['contracts.c_heap']
+DEDUCTIVE = [{'fid': 'odml/property.py::BaseProperty.clone', 'mode': 'heap'}]
+TIMEOUT_S = 20
+REPLAY = 'heap'
+ASSUMPTIONS = HEAP_ASSUMPTIONS + [
+    'BaseProperty.values setter: ASSUMED contract for the call shape of clone (no raise, stores a new list, writes only '
+    '_values/_dtype of the copy); copy.copy modelled as a shallow field-by-field copy into a new object of the same class',
+    'Section/Document clone (recursive, loops that modify the heap), export_leaf and the value-list independence are '
+    'decided by the bounded stand-in only',
+]
+EXPLANATION = 'deductive: BaseProperty.clone returns a new detached Property (parent None, same name, new value list object, id kept iff keep_id, otherwise a canonical uuid), modifies no object that existed before the call, and the heap with the copy satisfies Inv; bounded stand-in: clone/export_leaf/values contracts (equal, detached, nothing shared, ids fresh or kept, edits do not propagate) checked at run time'
 
 def bounded_jobs(tier, seed):
     return [
